@@ -149,10 +149,16 @@ def run(ctx: Ctx):
         X = [[M.rnd_point(ctx.rng) * (6.0 if rr % 3 == 2 else 1.0) for _ in range(width)] for rr in range(6)]
         tjobs.append({"kind": "toggle_cse", "defn": d, "decl": {"container": "set", "perm_seed": i}, "k": [None, 7.0, 2.0][i % 3], "X": X})
     tres = ctx.run_impl_jobs("adapter_py.py", tjobs, shards=4)
+    n_overflow = 0
     for j, r in zip(tjobs, tres):
         if "error" in r:
             ctx.violation(f"adapter raised while CSE was switched through set_params: {r['kind']}", {"definition": j["defn"], "error": r["error"]}, key="toggle-raises")
             continue
+        if r.get("err_on") or r.get("err_off"):
+            if r.get("err_on") != r.get("err_off"):
+                ctx.violation(f"the adapter's transform raises {r.get('err_on')} with CSE on and {r.get('err_off')} with CSE switched off through set_params",
+                              {"definition": j["defn"], "X": j["X"], "on": r.get("err_on"), "off": r.get("err_off")}, key="toggle-changes-values")
+            n_overflow += 1
         b, a = dict(r["before"]), dict(r["after"])
         bc, ac = dict(b.pop("config")), dict(a.pop("config"))
         bc["common_subexpression_elimination"] = ac["common_subexpression_elimination"] = None
@@ -162,7 +168,10 @@ def run(ctx: Ctx):
         elif any(not glue.close(x, y) for ra, rb in zip(r["T_on"], r["T_off"]) for x, y in zip(ra, rb)):
             ctx.violation("the adapter's transform gives different values with CSE switched off through set_params",
                           {"definition": j["defn"], "X": j["X"], "on": r["T_on"], "off": r["T_off"]}, key="toggle-changes-values")
-    ctx.cov["input_distribution"] = dict(n_temps, definitions=len(base), structure_cases=nstruct, python_programs_checked=len(ssa_terms), history_values=n_hist, cse_toggles=len(tjobs))
+    if tjobs and 2 * n_overflow > len(tjobs):
+        ctx.broken.append({"kind": "correspondence", "name": "CSE toggle stream: most histories overflow, the two settings are no longer compared on values", "detail": f"{n_overflow} of {len(tjobs)}"})
+    ctx.cov["input_distribution"] = dict(n_temps, definitions=len(base), structure_cases=nstruct, python_programs_checked=len(ssa_terms), history_values=n_hist, cse_toggles=len(tjobs),
+                                         cse_toggle_histories_overflowing=n_overflow)
     ctx.cov["traces_validated_against_impl"] = nstruct + len(ssa_terms)
     return ("each definition generated with CSE off and on (a third of them chains of 3-5 nested shared sub-expressions whose middle levels are used "
             "only by other temporaries): Python prediction and updates, and every value of the compiled generated C++, compared between the two "
